@@ -91,6 +91,24 @@ pub fn run(tier: &str) -> i32 {
     let mut all: BTreeMap<String, (String, u64, String)> = BTreeMap::new();
     let mut evals = 0u64;
     let mut per = Vec::new();
+    // the small case families once more with every trace record of the library formatted (log arguments are code too)
+    for (mode, path) in [("root", &root_p), ("sub", &sub_p)] {
+        for (v, build) in [("a", "dynamic-buffer(alloc)"), ("b", "fixed-buffer(no-alloc)")] {
+            match run_driver(v, &["c17", path.to_str().unwrap(), mode, "trace-subset"]) {
+                Ok(o) => {
+                    evals += o.evals;
+                    per.push(json!({"build": build, "directory": mode, "pass": "trace-level logging, small families", "evaluations": o.evals}));
+                    for (sig, n, msg) in o.viols {
+                        all.entry(format!("{sig}/{build}/trace-logging")).or_insert((msg, 0, mode.to_string())).1 += n;
+                    }
+                }
+                Err(e) => {
+                    eprintln!("MACHINERY ERROR: {e}");
+                    return 2;
+                }
+            }
+        }
+    }
     for (mode, path) in [("root", &root_p), ("sub", &sub_p)] {
         let mut hashes = Vec::new();
         for (v, build) in [("a", "dynamic-buffer(alloc)"), ("b", "fixed-buffer(no-alloc)")] {
